@@ -40,6 +40,12 @@ var algTable = []struct {
 	{[]int{1, 3, 101, 112}, StdAlg{"ed25519", 0, false}},
 }
 
+// AlgTableLen / AlgAt expose the table rows (non-PSS) so that a generator can write every
+// AlgorithmIdentifier the oracle can read, including the alias OIDs.
+func AlgTableLen() int { return len(algTable) }
+
+func AlgAt(i int) (oidDER []byte, alg StdAlg) { return der.OID(algTable[i].oid...), algTable[i].alg }
+
 var (
 	oidPSS    = der.OID(1, 2, 840, 113549, 1, 1, 10)
 	oidSHA256 = der.OID(2, 16, 840, 1, 101, 3, 4, 2, 1)
